@@ -91,11 +91,11 @@ Theorem C04_oracle_rejects_lf_gives_h0 : forall tsw W c,
   empty_undated (ts_of tsw W c) c.
 Proof. exact oracle_rejects_lf_gives_h0. Qed.
 
-(* (h1) holds when every line (terminator included) is at most (A-1)*H bytes
-   long; see C11 for the exact boundary *)
+(* (h1) holds when every line (terminator included, if any) is at most
+   A*H - 1 bytes long; see C11 for the exact boundary *)
 Theorem C04_short_lines_give_h1 : forall H A c,
   0 < H -> 0 < A ->
-  (forall o, 0 <= o <= lenZ c -> line_len c o <= (A - 1) * H) ->
+  (forall o, 0 <= o <= lenZ c -> line_len c o <= A * H - 1) ->
   all_within_budget H A c.
 Proof. exact short_lines_give_h1. Qed.
 
@@ -113,15 +113,16 @@ Theorem C04_constants :
   0 < SEEK_HORIZON /\ 0 < MAX_SEEK_HORIZON_EXPAND /\
   0 < MAX_TRY_FIND_WITH_DATE_ATTEMPTS /\ 0 < MAX_DATETIME_READ_BYTES /\
   MAX_TRY_FIND_WITH_DATE_ATTEMPTS - 1 = 499 /\
-  (MAX_SEEK_HORIZON_EXPAND - 1) * SEEK_HORIZON = 1048320.
+  MAX_SEEK_HORIZON_EXPAND * SEEK_HORIZON - 1 = 1048575.
 Proof. vm_compute. repeat split; reflexivity. Qed.
 
-(* time-ordered log, every line at most 1 048 320 bytes, at most 499
+(* time-ordered log, every line shorter than 1 MiB (at most 1 048 575 bytes,
+   terminator included if any), at most 499
    consecutive undated lines, matcher rejecting LF-initial text: searching
    starts exactly at the first in-window line *)
 Theorem C04_real_since_seek_exact : forall tsw c since,
   tsw [] = None -> (forall r, tsw (10 :: r) = None) ->
-  (forall o, 0 <= o <= lenZ c -> line_len c o <= 1048320) ->
+  (forall o, 0 <= o <= lenZ c -> line_len c o <= 1048575) ->
   time_ordered (ts_of tsw MAX_DATETIME_READ_BYTES c) c ->
   max_undated_run (ts_of tsw MAX_DATETIME_READ_BYTES c) c <= 499 ->
   apply_to_file SEEK_HORIZON MAX_SEEK_HORIZON_EXPAND
@@ -133,7 +134,7 @@ Proof.
   - apply oracle_rejects_lf_gives_h0; [vm_compute; reflexivity|exact Hnil|exact Hlf].
   - intros o Ho. apply short_line_within_budget;
       [vm_compute; reflexivity|vm_compute; reflexivity|exact Ho|].
-    replace ((MAX_SEEK_HORIZON_EXPAND - 1) * SEEK_HORIZON) with 1048320
+    replace (MAX_SEEK_HORIZON_EXPAND * SEEK_HORIZON - 1) with 1048575
       by (vm_compute; reflexivity). apply Hlen. exact Ho.
   - exact Hord.
   - unfold undated_runs_below.
